@@ -75,6 +75,12 @@ def expand(item, seed):
                             else:
                                 # the peer falls silent in the middle of a frame
                                 yield dict(sc, pong=dict(sc["pong"], partial="8105"))
+                        if traffic == "none" and t is not None and i in (1, 3, 8):
+                            yield dict(sc, second_conn="reconnect_after_timeout")
+                            yield dict(sc, second_conn="reconnect_after_timeout", dispatcher="rel")
+                            yield dict(sc, dispatcher="rel")
+                            if stratum == "responsive":
+                                yield dict(sc, second_conn="second_run_timeout_only")
                         if traffic == "none" and i in (1, 3, 8):
                             yield dict(sc, second_conn="second_run")
                             if stratum == "responsive":
@@ -133,6 +139,16 @@ def gen(rng):
         sc["second_conn"] = "second_run"      # the judged connection belongs to a second run_forever of the same object
     elif r2 < 0.3 and pong.get("stop_after") is None:
         sc["second_conn"] = "reconnect"       # the judged connection is a re-established one
+    elif r2 < 0.4 and tt is not None:
+        # the judged connection follows one that was given up for a ping timeout (its last ping still unanswered)
+        sc["second_conn"] = rng.choice(("reconnect_after_timeout", "reconnect_after_timeout", "second_run_timeout_only"))
+        if sc["second_conn"] == "second_run_timeout_only":
+            pong.pop("stop_after", None)
+            pong.pop("partial", None)
+    if rng.random() < 0.15 and sc.get("second_conn") not in ("second_run_timeout_only", "second_run") and not sc.get("tls"):
+        sc["dispatcher"] = "rel"              # external dispatcher (stub): the ping/pong check runs as one of its timers
+        if pong.get("partial"):
+            pong.pop("partial")
     sc["policy"] = rng.choice(({"kind": "coop", "p_call": 0.0}, {"kind": "coop", "p_call": 0.3},
                                {"kind": "prob", "p_line": 1 / 64, "p_call": 0.3}, {"kind": "prob", "p_line": 1 / 8, "p_call": 0.3},
                                {"kind": "pct", "d": 2, "len": 4000},
@@ -212,19 +228,41 @@ def run(sc, choices=None):
     cbs = {n: {"do": "ok"} for n in ("on_open", "on_error", "on_close", "on_pong")}
     judged = {"script": script, "on_ping": on_ping, "on_close": {"mode": "reply"}}
     second_conn = sc.get("second_conn") if not refused else None
-    if second_conn not in (None, "reconnect", "second_run"):
+    if second_conn not in (None, "reconnect", "second_run", "reconnect_after_timeout", "second_run_timeout_only"):
         raise InvalidScenario("second_conn")
     if second_conn == "reconnect" and silent:
         raise InvalidScenario("a silent peer behind a reconnect interval never ends the run")
+    if second_conn in ("reconnect_after_timeout", "second_run_timeout_only") and (tt is None or refused):
+        raise InvalidScenario("needs a ping timeout")
+    if second_conn == "second_run_timeout_only" and silent:
+        raise InvalidScenario("no pings are sent in that run: nobody can fall silent")
+    disp = sc.get("dispatcher", "builtin") if not refused else "builtin"
+    if disp not in ("builtin", "rel") or (disp == "rel" and (sc.get("tls") or pong.get("partial") or second_conn in ("second_run", "second_run_timeout_only"))):
+        raise InvalidScenario("dispatcher")
     conns = [judged]
     extra_run = {}
     extra = {}
+    judged_idx = 0
+    never = {"script": [], "on_ping": {"mode": "never"}, "on_close": {"mode": "reply"}}
     if second_conn == "reconnect":
         conns = [{"script": [{"t": it // 3, "end": "eof"}], "on_ping": {"mode": "pong"}}, judged]
         extra_run["reconnect"] = S // 2
+        judged_idx = 1
     elif second_conn == "second_run":
         conns = [{"script": [{"t": it // 3, "hex": R.encode_frame(1, 8, b"\x03\xe8").hex()}], "on_ping": {"mode": "pong"}}]
         extra = {"runs": 2, "second": {"conns": [judged]}}
+    elif second_conn == "reconnect_after_timeout":
+        # connection 0 never answers a ping and is given up; the judged one is its replacement; when that one is given up
+        # too, a third connection ends the run with a close frame
+        conns = [never, judged, {"script": [{"t": it // 3, "hex": R.encode_frame(1, 8, b"\x03\xe8").hex()}], "on_ping": {"mode": "pong"}}]
+        extra_run["reconnect"] = S // 2
+        judged_idx = 1
+    elif second_conn == "second_run_timeout_only":
+        # run 1 ends on a ping timeout, its last ping unanswered; run 2 is started with a ping timeout but no interval
+        conns = [never]
+        extra = {"runs": 2, "second": {"conns": [judged], "run": {"ping_timeout": tt}}}
+    if disp == "rel":
+        extra_run["dispatcher"] = "rel"
     asc = {"conns": conns, "callbacks": cbs,
            "run": {"ping_interval": it, "ping_timeout": tt, "ping_payload": payload, "tls": bool(sc.get("tls")), **extra_run}, "policy": sc.get("policy"),
            "seed": sc.get("seed", 1), "time_cap_s": int(horizon / S) + 200, "linger": 3 * it + S if not refused else 0,
@@ -262,17 +300,39 @@ def run(sc, choices=None):
     peer = out["peers"][-1] if out["peers"] else None
     if second_conn and len(out["peers"]) < 2:
         peer = None
+    elif second_conn == "reconnect_after_timeout":
+        peer = out["peers"][1]
+    if disp == "rel":
+        res.probes["external_dispatcher"] = 1
     if peer is None or peer.open_time is None:
         res.violate("no_connection", ctx, "peer never saw the handshake")
         return _fin(res, sc, ctx, 0)
     pings = [(f, seq, tm) for f, seq, tm in peer.frames if f.opcode == 9]
     t0 = peer.open_time
+    if second_conn == "second_run_timeout_only":
+        ctx = "responsive/no_interval_after_timeout"
+        touts = [t for t in run_.trace if t[2] == "on_error" and t[3] and t[3][0][0] == "exc" and t[3][0][1] == "WebSocketTimeoutException"]
+        if pings:
+            res.violate("pings_without_interval", ctx, f"{len(pings)} pings in a run started without ping_interval")
+        elif touts:
+            res.violate("responsive_peer_reported", ctx, f"a run that sends no pings reported {touts[0][3][0][2]!r} at {(touts[0][1] - t0) / S}s "
+                        f"(the previous run of the object had ended on a ping timeout)")
+        return _fin(res, sc, ctx, 1)
     # ---- ping payload and cadence
     for f, _, tm in pings:
         if f.payload != payload.encode("utf-8"):
             res.violate("wrong_ping_payload", ctx, f"ping payload {f.payload[:20]!r}, configured {payload[:20]!r}")
             return _fin(res, sc, ctx, len(pings))
     end = run_.t_end
+    oc = [t for t in run_.trace if t[2] == "on_close"]
+    if oc:
+        end = min(end, oc[-1][1])  # (an external dispatcher may linger over an idle timer after the connection has gone)
+    if second_conn == "reconnect_after_timeout" and len(out["peers"]) > 2 and out["peers"][2].open_time is not None:
+        end = min(end, out["peers"][2].open_time)  # the judged connection had been replaced by then
+        sp_ = [e for e in w.k.log if e[3] == "spawn" and e[5] == "SimThread"]
+        ex_ = [e for e in w.k.log if e[3] == "exit" and len(sp_) > 1 and e[4] == sp_[1][4]]
+        if ex_:
+            end = min(end, ex_[0][1])  # ... and given up (its ping thread stopped) when the timeout was noticed
     if pings:
         if pings[0][2] - t0 > 2 * it + SLACK:
             res.violate("first_ping_late", ctx, f"first ping {(pings[0][2] - t0) / S}s after the connection came up, interval {i_s}")
@@ -295,6 +355,16 @@ def run(sc, choices=None):
     # ---- detection
     touts = [t for t in run_.trace if t[2] == "on_error" and t[3] and t[3][0][0] == "exc" and t[3][0][1] == "WebSocketTimeoutException"
              and t[1] >= t0]
+    if silent and second_conn == "reconnect_after_timeout" and not touts and len(w.net.sockets) > 1:
+        # while a reconnect interval is configured the library does not call on_error for a re-established connection
+        # that is lost again: there the report is the act itself - the connection is given up (its socket closed) and
+        # replaced
+        # (the instant it is given up = the instant its ping thread is stopped; the socket itself is closed only when the
+        # reconnect interval has passed)
+        spawns = [e for e in w.k.log if e[3] == "spawn" and e[5] == "SimThread"]
+        gave_up = [e for e in w.k.log if e[3] == "exit" and len(spawns) > 1 and e[4] == spawns[1][4]]
+        if gave_up and len(w.net.sockets) > 2:
+            touts = [(gave_up[0][0], gave_up[0][1], "on_error", (("exc", "WebSocketTimeoutException", "ping/pong timed out (connection replaced)"),))]
     if silent:
         k = int(pong["stop_after"])
         if len(pings) > k:
@@ -323,7 +393,7 @@ def _fin(res, sc, ctx, npings):
             if "[judged connection:" not in v["detail"]:
                 v["detail"] = f"[judged connection: {sc['second_conn']}] " + v["detail"]
     res.sig = repr((sc["interval"], sc.get("timeout"), ctx, (sc.get("pong") or {}).get("mode"), (sc.get("traffic") or {}).get("mode"),
-                    res.sched if res.switches else ""))
+                    sc.get("second_conn"), sc.get("dispatcher"), res.sched if res.switches else ""))
     res.nontrivial = npings > 0
     res.probes["stratum_" + ctx.split("/")[0]] = 1
     res.probes["pings_seen"] = npings
@@ -331,4 +401,4 @@ def _fin(res, sc, ctx, npings):
 
 
 def sample_view(sc, r):
-    return {k: sc.get(k) for k in ("interval", "timeout", "payload", "pong", "traffic", "pings", "policy", "tls", "second_conn")}
+    return {k: sc.get(k) for k in ("interval", "timeout", "payload", "pong", "traffic", "pings", "policy", "tls", "second_conn", "dispatcher")}
